@@ -1,6 +1,74 @@
-import BR.Model.Lru
+import BR.Lemmas.LruOrder
+/-!
+# C17 — max_size_hard_limit refuses overload with a retryable error; reads continue
+
+Model M1: `Reserve` is the single admission point of every upload and backend fetch
+(disk.go `Put` / `availableOrTryProxy`); `qsize` is `queuedEvictionsSize`, the bytes of files removed
+from the index but not yet unlinked by the background remover (`drainOne` = one unlink).
+The mapping 507 → RESOURCE_EXHAUSTED is a regenerated fact (`BR.Gen`, `gRPCErrCode`).
+-/
 namespace BR.Props.C17
 open BR.Lru
-theorem placeholder : roundUp4k 1 = 4096 := by decide
-#print axioms placeholder
+
+/-- **admission test**: for a positive size that passes the `maxSize` tests, `Reserve` answers with
+the hard-limit refusal (507) **iff** the option is on and accounted size + deletion backlog + new
+item exceeds the limit (no uint64 wrap: the sum is below 2^64). -/
+theorem hard_limit_refuses_iff {l : Lru} (h : Inv l) (size : Int) (hpos : 0 < size) (hle : size ≤ l.maxSize)
+    (hfit : size + l.res ≤ l.maxSize) (hnw : l.cur + l.qsize + size < 18446744073709551616)
+    (hh : l.hardLimit < 9223372036854775808) :
+    (reserve l size).2 = some .insufficientHard ↔ (0 < l.hardLimit ∧ l.cur + l.qsize + size > l.hardLimit) :=
+  reserve_hard_iff h size hpos hle hfit hnw hh
+
+/-- **a refusal stores nothing and evicts nothing**: whatever error `Reserve` returns, the state
+(index, order, counters, backlog) is unchanged. -/
+theorem refusal_state_unchanged {l : Lru} (h : Inv l) (size : Int) (e : Err)
+    (herr : (reserve l size).2 = some e) : (reserve l size).1 = l :=
+  reserve_err_unchanged h size e herr
+
+/-- **retry succeeds after the deletions caught up**: once the backlog has drained, a reservation
+that fits under the hard limit by itself (`cur + size ≤ hardLimit`) is not refused for this reason. -/
+theorem retry_after_drain {l : Lru} (h : Inv l) (size : Int) (hpos : 0 < size) (hle : size ≤ l.maxSize)
+    (hfit : size + l.res ≤ l.maxSize) (hh : l.hardLimit < 9223372036854775808)
+    (hroom : l.cur + size ≤ l.hardLimit) :
+    (reserve (drainAll l) size).2 ≠ some .insufficientHard := by
+  have hinv := inv_drainAll h
+  have hq : (drainAll l).qsize = 0 := by
+    simp only [drainAll]; have := h.q_eq; omega
+  have hc : (drainAll l).cur = l.cur := rfl
+  have hm := h.max_lt
+  have hcl := h.cur_le
+  intro hx
+  have := (reserve_hard_iff hinv size hpos hle hfit (by rw [hq, hc]; omega) hh).mp hx
+  rw [hq, hc] at this
+  have h2 : (drainAll l).hardLimit = l.hardLimit := rfl
+  omega
+
+/-- draining the backlog never changes the index or the accounted size, so retries converge -/
+theorem drain_keeps_index (l : Lru) :
+    (drainOne l).1.order = l.order ∧ (drainOne l).1.cur = l.cur ∧ (drainOne l).1.res = l.res := by
+  unfold drainOne; split <;> simp
+
+/-- **without the option no request is refused for this reason** -/
+theorem disabled_never_refuses (l : Lru) (size : Int) (hoff : l.hardLimit ≤ 0) :
+    (reserve l size).2 ≠ some .insufficientHard := no_hard_refusal_when_disabled l size hoff
+
+/-- **reads and existence checks are served throughout**: the index lookup does not consult the
+limit or the backlog at all. -/
+theorem reads_ignore_limit (l : Lru) (k : String) (hl q : Int) :
+    (Lru.get { l with hardLimit := hl, qsize := q } k).2 = (Lru.get l k).2 := by
+  unfold Lru.get find?; split <;> rename_i heq <;> simp only at heq <;> rw [heq]
+
+/-! non-vacuity: a state in which the refusal happens, and the same request admitted after draining -/
+def busy : Lru := run (init 16384 24576) [.add "cas/a" ⟨1, 8192, "r", false⟩, .add "cas/b" ⟨1, 8192, "r", false⟩,
+  .add "cas/c" ⟨1, 8192, "r", false⟩]
+
+example : (reserve busy 8192).2 = some .insufficientHard ∧ (reserve busy 8192).1.order = busy.order ∧
+    (reserve (drainAll busy) 8192).2 = none := by decide
+
+#print axioms hard_limit_refuses_iff
+#print axioms refusal_state_unchanged
+#print axioms retry_after_drain
+#print axioms drain_keeps_index
+#print axioms disabled_never_refuses
+#print axioms reads_ignore_limit
 end BR.Props.C17
